@@ -252,7 +252,7 @@ func init() {
 			return e.freshVal("sprint", strT)
 		},
 	}
-	for _, n := range []string{"sort.Strings", "sort.Ints", "sort.Slice", "sort.SliceStable", "slices.Sort", "slices.SortFunc",
+	for _, n := range []string{"sort.Strings", "sort.Ints", "sort.Slice", "sort.SliceStable", "sort.Sort", "sort.Stable", "slices.Sort", "slices.SortFunc",
 		"slices.SortStableFunc", "slices.Reverse", "math/rand.Shuffle", "github.com/thought-machine/please/src/fs.SortPaths"} {
 		name := n
 		stdModels[name] = func(e *Exec, st *State, a []Val, x *ast.CallExpr) Val {
@@ -343,6 +343,15 @@ func (e *Exec) permuteInPlace(st *State, name string, a []Val, x *ast.CallExpr) 
 			e.assume(st, t)
 		} else {
 			e.note("less function of " + name + " is not a single expression: no ordering assumed")
+		}
+	}
+	// sort.Sort(x) / sort.Stable(x) on a named slice type: afterwards x.Less(j, i) is false for i < j, with the
+	// (single-expression) Less method of the argument's static type evaluated over two bound indices.
+	if (name == "sort.Sort" || name == "sort.Stable") && x != nil && len(x.Args) == 1 {
+		if t, ok := e.lessMethodOverIndices(st, x.Args[0], n); ok {
+			e.assume(st, t)
+		} else {
+			e.note("Less method of the argument of " + name + " is not a single expression over a slice receiver: no ordering assumed")
 		}
 	}
 	// slices.SortFunc(s, cmp): afterwards cmp(s[i], s[j]) <= 0 for i < j.
@@ -1513,6 +1522,82 @@ func (e *Exec) lessOverIndices(st *State, c *Closure, n Term) (t Term, ok bool) 
 	pair := fmt.Sprintf("(forall ((%s Int) (%s Int)) (=> (and (<= 0 %s) (< %s %s) (< %s %s)) (not %s)))",
 		iv.S, jv.S, iv.S, iv.S, jv.S, jv.S, n.S, v.T.S)
 	// the adjacent instance, stated separately (it is what loops over the sorted slice need)
+	adjacent := fmt.Sprintf("(forall ((%s Int)) (=> (and (< 0 %s) (< %s %s)) (let ((%s (- %s 1))) (not %s))))",
+		jv.S, jv.S, jv.S, n.S, iv.S, jv.S, v.T.S)
+	return T(SBool, "(and "+pair+" "+adjacent+")"), true
+}
+
+// lessMethodOverIndices: like lessOverIndices for sort.Sort(x): x's static type is a named slice type whose
+// Less(i, j int) bool method is `return <expr>`; the receiver is bound to the value of x after the sort.
+func (e *Exec) lessMethodOverIndices(st *State, arg ast.Expr, n Term) (t Term, ok bool) {
+	at := e.info().TypeOf(arg)
+	if at == nil {
+		return Term{}, false
+	}
+	named, isNamed := types.Unalias(at).(*types.Named)
+	if !isNamed {
+		return Term{}, false
+	}
+	if _, isSlice := named.Underlying().(*types.Slice); !isSlice {
+		return Term{}, false
+	}
+	var less *types.Func
+	for i := 0; i < named.NumMethods(); i++ {
+		if m := named.Method(i); m.Name() == "Less" {
+			less = m
+		}
+	}
+	if less == nil {
+		return Term{}, false
+	}
+	decl, pkg := e.prog.findDecl(less)
+	if decl == nil || decl.Body == nil || len(decl.Body.List) != 1 || decl.Recv == nil || len(decl.Recv.List) != 1 || len(decl.Recv.List[0].Names) != 1 {
+		return Term{}, false
+	}
+	ret, isRet := decl.Body.List[0].(*ast.ReturnStmt)
+	if !isRet || len(ret.Results) != 1 {
+		return Term{}, false
+	}
+	var params []types.Object
+	for _, f := range decl.Type.Params.List {
+		for _, nm := range f.Names {
+			params = append(params, pkg.TypesInfo.Defs[nm])
+		}
+	}
+	recvObj := pkg.TypesInfo.Defs[decl.Recv.List[0].Names[0]]
+	if len(params) != 2 || params[0] == nil || params[1] == nil || recvObj == nil {
+		return Term{}, false
+	}
+	defer func() {
+		if r := recover(); r != nil {
+			if _, isUns := r.(unsupported); !isUns {
+				panic(r)
+			}
+			t, ok = Term{}, false
+		}
+	}()
+	cur := e.ev(st, arg) // the slice after the reordering
+	e.sc.counter++
+	iv := T(SInt, fmt.Sprintf("|si?%d|", e.sc.counter))
+	jv := T(SInt, fmt.Sprintf("|sj?%d|", e.sc.counter))
+	st2 := e.specState(st)
+	intT := types.Typ[types.Int]
+	st2.vars[recvObj] = Val{T: cur.T, GT: named}
+	st2.vars[params[0]] = Val{T: jv, GT: intT}
+	st2.vars[params[1]] = Val{T: iv, GT: intT}
+	e.sc.binders++
+	e.inContract++
+	fr := &callFrame{name: less.FullName(), pkg: pkg, node: decl, closures: map[types.Object]*Closure{}}
+	e.frames = append(e.frames, fr)
+	v := e.ev(st2, ret.Results[0])
+	e.frames = e.frames[:len(e.frames)-1]
+	e.inContract--
+	e.sc.binders--
+	if v.T.Sort != SBool {
+		return Term{}, false
+	}
+	pair := fmt.Sprintf("(forall ((%s Int) (%s Int)) (=> (and (<= 0 %s) (< %s %s) (< %s %s)) (not %s)))",
+		iv.S, jv.S, iv.S, iv.S, jv.S, jv.S, n.S, v.T.S)
 	adjacent := fmt.Sprintf("(forall ((%s Int)) (=> (and (< 0 %s) (< %s %s)) (let ((%s (- %s 1))) (not %s))))",
 		jv.S, jv.S, jv.S, n.S, iv.S, jv.S, v.T.S)
 	return T(SBool, "(and "+pair+" "+adjacent+")"), true
